@@ -139,6 +139,9 @@ pub struct StreamsState {
     receive_window_shrink_debt: u64,
     /// Whether the locally-initiated stream limit has been hit, per direction
     pub(super) streams_blocked: [bool; 2],
+    /// Whether `set_params` was called before, i.e. we've been operating on remembered 0-RTT
+    /// parameters
+    params_set: bool,
 }
 
 impl StreamsState {
@@ -184,6 +187,7 @@ impl StreamsState {
             initial_max_stream_data_bidi_remote: 0u32.into(),
             receive_window_shrink_debt: 0,
             streams_blocked: [false, false],
+            params_set: false,
         };
 
         for dir in Dir::iter() {
@@ -199,8 +203,17 @@ impl StreamsState {
         self.initial_max_stream_data_uni = params.initial_max_stream_data_uni;
         self.initial_max_stream_data_bidi_local = params.initial_max_stream_data_bidi_local;
         self.initial_max_stream_data_bidi_remote = params.initial_max_stream_data_bidi_remote;
+        let old_max = self.max;
         self.max[Dir::Bi as usize] = params.initial_max_streams_bidi.into();
         self.max[Dir::Uni as usize] = params.initial_max_streams_uni.into();
+        if mem::replace(&mut self.params_set, true) {
+            // The application might be waiting to open streams beyond the remembered limit
+            for dir in Dir::iter() {
+                if self.max[dir as usize] > old_max[dir as usize] {
+                    self.events.push_back(StreamEvent::Available { dir });
+                }
+            }
+        }
         self.received_max_data(params.initial_max_data);
         for i in 0..self.max_remote[Dir::Bi as usize] {
             let id = StreamId::new(!self.side, Dir::Bi, i);
